@@ -142,14 +142,16 @@ func c03Exec(r *vf.Run, cfg c03Cfg, c *vf.Chooser) (keys, whats []string) {
 	sess := &refsmtp.Session{Host: hx.Host, Caps: []string{"8BITMIME", "ENHANCEDSTATUSCODES"}}
 	xport := map[int]int{} // txn -> absolute content offset at which the transport fails
 	xportCls := map[int]int{}
-	std := stdScript(c)
+	std := stdScriptM(c)
 	sess.Script = func(s *refsmtp.Session, ev *refsmtp.Event, def refsmtp.Action) refsmtp.Action {
 		switch ev.Verb {
 		case "GREETING", "EHLO", "HELO", "QUIT":
 			return def
 		case "EOD":
 			// alphabet {250, 4yz, 5yz, drop, other 2yz}
-			switch c.Choose(ev.Pos(), 5) {
+			switch c.Choose(ev.Pos(), 6) {
+			case 5:
+				return refsmtp.Action{Kind: refsmtp.ActReply, Code: 250, Text: []string{"2.0.0 Ok", "queued as 0001", "thank you"}}
 			case 1:
 				return refsmtp.Action{Kind: refsmtp.ActReply, Code: 451}
 			case 2:
@@ -366,6 +368,8 @@ func c03Describe(label string, pick int) string {
 		return label + "=fail " + c03XportNames[pick]
 	case strings.HasPrefix(label, "EOD#") && pick == 4:
 		return label + "=251"
+	case strings.HasPrefix(label, "EOD#") && pick == 5:
+		return label + "=250 multi-line"
 	}
 	return describeReplyChoice(label, pick)
 }
@@ -374,7 +378,7 @@ func init() {
 	vf.Register(&vf.Check{
 		ID: "C03", Title: "only complete messages are committed; IsDelivered tells the truth",
 		Run: func(r *vf.Run) {
-			r.SetRule("batches of 1..3 messages over shapes {single, alternative, body+attachment, body+embed}; choice points: every content producer {ok, fail before first byte, fail after half}, S/MIME signing of single-part messages {off, fails at render time before the first byte}, transport failure in each DATA phase at {never, first content byte, inside headers, inside a part body, just before the end, inside the end-of-data marker}, server reply at NOOP/MAIL/RCPT/DATA/RSET {ok,4yz,5yz,drop} and at end-of-data {250,4yz,5yz,drop,251}; all vectors with <= k deviations; oracle: server commit log vs. reference rendering of the same Msg objects; distinct by (configuration, choice vector)")
+			r.SetRule("batches of 1..3 messages over shapes {single, alternative, body+attachment, body+embed}; choice points: every content producer {ok, fail before first byte, fail after half}, S/MIME signing of single-part messages {off, fails at render time before the first byte}, transport failure in each DATA phase at {never, first content byte, inside headers, inside a part body, just before the end, inside the end-of-data marker}, server reply at NOOP/MAIL/RCPT/DATA/RSET {ok,4yz,5yz,drop,multi-line ok} and at end-of-data {250,4yz,5yz,drop,251,multi-line 250}; all vectors with <= k deviations; oracle: server commit log vs. reference rendering of the same Msg objects; distinct by (configuration, choice vector)")
 			r.Assume("the reference rendering is WriteTo on the same Msg after Send with faults disabled (default file encodings; repeatability itself is C11)",
 				"the transport's final CRLF after content that does not end in CRLF is not part of the message")
 			type job struct {
